@@ -69,7 +69,11 @@ impl Api {
     /// Ok only for the identical (already normalised) string
     #[verifier::external_body]
     pub fn addr_validate(&self, s: &str) -> (r: Result<Addr, StdError>) ensures r is Ok ==> r->Ok_0.s@ == s@ { unimplemented!() }
+    #[verifier::external_body]
+    pub fn addr_humanize(&self, c: &CanonicalAddr) -> (r: Result<Addr, StdError>) ensures r is Ok ==> r->Ok_0.s@ == humanize(*c) { unimplemented!() }
 }
+/// human-readable form of a canonical address (uninterpreted)
+pub uninterp spec fn humanize(c: CanonicalAddr) -> Seq<char>;
 pub struct Item<T> { pub ns: u64, pub _p: PhantomData<T> }
 impl<T> Item<T> {
     pub open spec fn key(&self) -> (int, Seq<u8>) { (self.ns as int, Seq::<u8>::empty()) }
